@@ -1055,6 +1055,16 @@ impl Database {
                 )));
             }
 
+            // The other slot is only a fallback if its own checksum verified when the header was
+            // loaded. The fields of a slot that failed it are untrusted: a cleared "root is
+            // non-null" flag, for instance, makes the tree walk below succeed vacuously and the
+            // damaged state would be served, and certified by check_integrity(), as valid
+            if mem.secondary_slot_corrupted() {
+                return Err(DatabaseError::Storage(StorageError::Corrupted(
+                    "Failed to repair database. All roots are corrupted".to_string(),
+                )));
+            }
+
             // 0.3 because the repair takes 3 full scans and the first is done now
             let mut handle = RepairSession::new(0.3);
             repair_callback(&mut handle);
